@@ -3,7 +3,7 @@ import collections
 import types
 import vf
 vf.use_repo()
-from ak.ppobj import PPTable  # noqa: E402
+from ak.ppobj import PPTable, PPRecordFmt  # noqa: E402
 from vf import tables as T  # noqa: E402
 from vf.core import sig_of  # noqa: E402
 
@@ -61,7 +61,15 @@ def gen_case(rng, big=False):
     shape = rng.choice([None] * 9 + ['namedtuple', 'dict-paths', 'pos-paths', 'attr'])
     if shape:
         later = None
-    return dict(centered=centered, shape=shape, recs=recs, fmt=fmt, cols=cols, limits=limits, lim_arg=lim_arg, header=header, footer=footer,
+    if rng.random() < 0.012:
+        # a very wide table: frame and service lines longer than 1000 characters
+        recs = [(("w%d" % k) * rng.choice([150, 330]), r[1], r[2], "z" * rng.choice([400, 640])) for k, r in enumerate(recs)]
+        fmt, cols, limits = "a:300-700,b,d:1000-1100", [
+            dict(field='a', mod=None, brk=False, lo=300, hi=700, spec='a:300-700', hidden=False),
+            dict(field='b', mod=None, brk=False, lo=1, hi=999, spec='b', hidden=False),
+            dict(field='d', mod=None, brk=False, lo=1000, hi=1100, spec='d:1000-1100', hidden=False)], None
+        later, shape = None, None
+    return dict(centered=centered, shape=shape, rec_fmt_first=rng.random() < 0.25, recs=recs, fmt=fmt, cols=cols, limits=limits, lim_arg=lim_arg, header=header, footer=footer,
                 titles=titles, later=later, grow_by=rng.choice([1, 1, -1]),
                 new_bounds=[(rng.choice([0, 1, 2, 3]), rng.choice([3, 4, 6, 9, 30])) for _ in range(3)],
                 extra_recs=T.gen_records(rng, (1, 3, 6)))
@@ -103,8 +111,20 @@ def judge(ctx, c, case):
         recs_in, fmt_in, fields_in = shaped(c)
         if c.get('shape'):
             ctx.count("tables_with_other_record_shapes")
+        ftypes = T.mk_field_types(c.get('centered'))
+        if c.get('rec_fmt_first') and c['recs'] and not c.get('shape'):
+            # the same field type objects were used by a one-line record formatter before, and the caller
+            # built its output line from the returned column texts, in place
+            try:
+                data = PPRecordFmt(c['fmt'].split(";")[0], fields=T.FIELDS, fields_types=ftypes)(
+                    c['recs'][0], no_color=True)
+                for col in data.columns:
+                    col += " #"
+                ctx.count("record_formatter_used_before_the_table")
+            except Exception:
+                ctx.count("record_formatter_raises(observed, outside the property)")
         t = PPTable(recs_in, fields=fields_in, fmt=fmt_in, limits=c['lim_arg'], header=c['header'],
-                    footer=c['footer'], fields_types=T.mk_field_types(c.get('centered')),
+                    footer=c['footer'], fields_types=ftypes,
                     fields_titles=dict(c['titles']))
         lines = T.render(t).split("\n")
     except Exception as err:
